@@ -47,6 +47,27 @@ func (ex *Exec) call(fr *Frame, instr ssa.Instruction, c *ssa.CallCommon, st *St
 	if fv, ok := v.(FuncV); ok {
 		return ex.callFunc(fr, fv.Fn, fv.Free, args, st, reach, pos)
 	}
+	if pf, ok := v.(ParamFuncV); ok {
+		// a call through a function-typed parameter: only its callback contract is known
+		var cb *Contract
+		if ex.contract != nil && ex.contract.Callbacks != nil {
+			cb = ex.contract.Callbacks[pf.Name]
+		}
+		if cb == nil {
+			panic(unsupported("call through function parameter %s without a callback contract", pf.Name))
+		}
+		sig := under(pf.Ty).(*types.Signature)
+		var names []string
+		for i := 0; i < sig.Params().Len(); i++ {
+			n := sig.Params().At(i).Name()
+			if n == "" || n == "_" {
+				n = fmt.Sprintf("arg%d", i)
+			}
+			names = append(names, n)
+		}
+		ex.vc.Assumptions["calls through the function parameter "+pf.Name+" behave as its callback contract states"] = true
+		return ex.applyContract(fr, cb, names, args, sig, ex.fn.Pkg, st, reach, pos, "callback "+pf.Name)
+	}
 	panic(unsupported("dynamic call through %s in %s", c.Value.Name(), fr.fn))
 }
 
@@ -273,6 +294,9 @@ func (ex *Exec) applyContract(fr *Frame, c *Contract, names []string, args []Val
 		keep := func(name string, old, nh Term) Term {
 			rv := Var("r?", SInt)
 			guard := []Term{Lt(rv, topPre)}
+			if strings.HasPrefix(name, "G|") {
+				guard = nil // ghost heaps are keyed by arbitrary integers, not by references
+			}
 			for _, d := range byHeap[name] {
 				if d.all {
 					return True
